@@ -48,6 +48,48 @@ func (t *goTracer) of(g int64) []*canon.Node {
 	return t.ev[g]
 }
 
+// c11Deep: 16 evaluations that are each thousands of non-tail calls deep at the same moment (they sleep at the bottom)
+// return what each returns alone: nothing an evaluation may use (depth, memory, bookkeeping) is shared between them.
+func c11Deep(c *fw.Ctx, id string) {
+	c.Case(id, "16 simultaneous evaluations, each 7000 non-tail calls deep", func() {
+		e, _ := c11Env()
+		def := "(def deep-rec (fn (n) (if (< n 1) (do (sleep 40) 0) (+ 1 (deep-rec (- n 1))))))"
+		if o := hx.EvalText(context.Background(), def, e); o.Err != nil {
+			panic(o.Err)
+		}
+		solo := hx.EvalText(context.Background(), "(deep-rec 7000)", e)
+		if solo.Err != nil || solo.Panicked || solo.Val != 7000 {
+			c.Count("deep_batches_discarded", 1) // alone it does not fit either: nothing to compare
+			return
+		}
+		var wg sync.WaitGroup
+		res := make([]hx.Outcome, 16)
+		for i := range res {
+			wg.Add(1)
+			go func(i int) {
+				defer wg.Done()
+				ctx, cancel := context.WithTimeout(context.Background(), 120*time.Second)
+				defer cancel()
+				res[i] = hx.EvalText(ctx, "(deep-rec 7000)", e)
+			}(i)
+		}
+		done := make(chan struct{})
+		go func() { wg.Wait(); close(done) }()
+		if !waitOrTimeout(done, 200*time.Second) {
+			c.Violate(fw.Violation{Key: "blocked", What: "16 deep evaluations did not finish within 200 s", Detail: fw.GoroutineDump()})
+			c.Runaway()
+			return
+		}
+		c.Count("deep_batches", 1)
+		for i, o := range res {
+			if o.Panicked || o.Err != nil || o.Val != 7000 {
+				c.Violate(fw.Violation{Key: "solo-vs-concurrent:deep-recursion", What: fmt.Sprintf("(deep-rec 7000) returns 7000 alone; as evaluation %d of 16 simultaneous ones it gave %v err %v %s", i, o.Val, o.Err, o.PanicMsg)})
+				return
+			}
+		}
+	})
+}
+
 func c11Env() (types.EnvType, *goTracer) {
 	e := hx.NewStdEnv()
 	// a host builtin that keeps a counter in the environment through Env.Update (read-modify-write under the scope's lock)
@@ -61,6 +103,10 @@ func c11Env() (types.EnvType, *goTracer) {
 	t := &goTracer{ev: map[int64][]*canon.Node{}}
 	t.install(e)
 	installFailers(e)
+	// a shared global that every program only reads: a memoized library function called with many distinct arguments
+	if o := hx.EvalText(context.Background(), "(def shared-memo-square (memoize (fn (x) (* x x))))", e); o.Err != nil || o.Panicked {
+		panic(fmt.Sprint("preload: ", o.Err, o.PanicMsg))
+	}
 	return e, t
 }
 
@@ -96,7 +142,8 @@ func c11Program(pg *gen.PG, i int) (string, []*canon.Node) {
   (def thunk-loop%[1]s (fn (n bad) (if (< n 1) bad (thunk-loop%[1]s (- n 1) (+ bad ((fn () (def acc-local %[2]d) (if (= acc-local %[2]d) 0 1))))))))
   (trace! (list :def-in-thunk-saw-foreign-value (thunk-loop%[1]s 60 0)))
   (trace! (list :def-in-future-body @(future (do (def acc-local2 %[2]d) (sleep 1) (= acc-local2 %[2]d)))))
-`, sfx, tag)
+  (trace! (list :shared-memoized-function (reduce + 0 (map shared-memo-square (range %[3]d %[4]d)))))
+`, sfx, tag, i*37, i*37+40)
 	var sb strings.Builder
 	sb.WriteString("(do\n")
 	for _, f := range forms {
@@ -397,6 +444,11 @@ func runC11(c *fw.Ctx) {
 	Ts := []int{2, 4, 8, 16}
 	for i := 0; i < c.PerShard(c.Pick(160, 4000)); i++ {
 		c11Batch(c, r, fmt.Sprintf("batch-%d", i), Ts[i%len(Ts)])
+	}
+	// deep simultaneous recursion: costly under the race detector (deep stacks), so one batch in the quick tier (shard 0)
+	// and one per shard in the thorough tier
+	if !c.Quick() || c.Shard == 0 {
+		c11Deep(c, "deep-0")
 	}
 }
 
